@@ -108,7 +108,8 @@ Record reg_ext (s s' : rstate) : Prop := {
   re_alts : forall p l' c, get_alts (r_alts s') p = Some l' -> In c l' ->
              (exists l, get_alts (r_alts s) p = Some l /\ In c l) \/ mem_sym (SC c) (r_nodes s) = false;
   re_keep : forall p l c, get_alts (r_alts s) p = Some l -> In c l ->
-             exists l', get_alts (r_alts s') p = Some l' /\ In c l'
+             exists l', get_alts (r_alts s') p = Some l' /\ In c l';
+  re_nonterm : forall x, mem_sym x (r_nonterm s) = true -> mem_sym x (r_nonterm s') = true
 }.
 
 Lemma reg_ext_refl s : reg_ext s s.
@@ -116,7 +117,7 @@ Proof. constructor; intros; eauto. Qed.
 
 Lemma reg_ext_trans s1 s2 s3 : reg_ext s1 s2 -> reg_ext s2 s3 -> reg_ext s1 s3.
 Proof.
-  intros [N1 A1 K1] [N2 A2 K2]; constructor.
+  intros [N1 A1 K1 T1] [N2 A2 K2 T2]; constructor; [| | |intros; eauto].
   - intros; eauto.
   - intros p l' c Hg Hin. destruct (A2 _ _ _ Hg Hin) as [[l [Hg2 Hin2]] | Hf].
     + eauto.
@@ -168,8 +169,9 @@ Qed.
 Lemma reg_inv_same s s' : r_nodes s' = r_nodes s -> r_alts s' = r_alts s -> reg_inv d s -> reg_inv d s'.
 Proof. intros Hn Ha [K N M R E]; constructor; rewrite ?Hn, ?Ha; assumption. Qed.
 
-Lemma reg_ext_same s s' : r_nodes s' = r_nodes s -> r_alts s' = r_alts s -> reg_ext s s'.
-Proof. intros Hn Ha; constructor; rewrite ?Hn, ?Ha; intros; eauto. Qed.
+Lemma reg_ext_same s s' : r_nodes s' = r_nodes s -> r_alts s' = r_alts s ->
+  (forall x, mem_sym x (r_nonterm s) = true -> mem_sym x (r_nonterm s') = true) -> reg_ext s s'.
+Proof. intros Hn Ha Ht; constructor; rewrite ?Hn, ?Ha; intros; eauto. Qed.
 
 Lemma reg_inv_add_node s sy : reg_inv d s -> reg_inv d (set_nodes s (r_nodes s ++ [sy])).
 Proof.
@@ -261,6 +263,7 @@ Proof.
       * apply Nat.eqb_eq in Eq; subst q. rewrite Hg'. eexists; split; [reflexivity|].
         apply in_or_app; left; exact Hin'.
       * eauto.
+    + intros x Hx. apply (re_nonterm _ _ He'). apply (re_nonterm _ _ He1). exact Hx.
   - simpl. exact Hcreg.
 Qed.
 
@@ -281,11 +284,12 @@ Proof.
   destruct (negb (is_abstract d sy) && _).
   - split; [|split].
     + eapply reg_inv_same with (s := s4); try reflexivity; exact Hi4.
-    + eapply reg_ext_trans; [exact He|]. apply reg_ext_same; reflexivity.
+    + eapply reg_ext_trans; [exact He|]. apply reg_ext_same; try reflexivity. intros x Hx; exact Hx.
     + exact Hm.
   - split; [|split].
     + eapply reg_inv_same with (s := s4); try reflexivity; exact Hi4.
-    + eapply reg_ext_trans; [exact He|]. apply reg_ext_same; reflexivity.
+    + eapply reg_ext_trans; [exact He|]. apply reg_ext_same; try reflexivity.
+      intros x Hx; simpl. rewrite mem_sym_app, Hx; reflexivity.
     + exact Hm.
 Qed.
 
@@ -316,5 +320,159 @@ Proof. constructor; simpl; intros; try discriminate. constructor. Qed.
 (* the registered productions of every analysed grammar *)
 Corollary reg_result_inv fuel t r : reg fuel d t r0 = Ok r -> reg_inv d r.
 Proof. intro H. apply (reg_ok fuel t r0 r H reg_inv_r0). Qed.
+
+(* ---------- completeness facts, with a set X of symbols whose registration is still in progress ---------- *)
+Definition closed_at (s : rstate) (c : nat) : Prop :=
+  (forall p, parent_of d c = Some p -> exists l, get_alts (r_alts s) p = Some l /\ In c l) /\
+  (is_abstract d (SC c) = false -> fields_of d (SC c) <> [] -> mem_sym (SC c) (r_nonterm s) = true).
+
+Definition reg_closed (X : list nat) (s : rstate) : Prop :=
+  forall c, mem_sym (SC c) (r_nodes s) = true -> ~ In c X -> closed_at s c.
+
+Lemma closed_at_ext s s' c : reg_ext s s' -> closed_at s c -> closed_at s' c.
+Proof.
+  intros He [A B]. split.
+  - intros p Hp. destruct (A p Hp) as [l [Hg Hin]]. apply (re_keep _ _ He _ _ _ Hg Hin).
+  - intros H1 H2. apply (re_nonterm _ _ He). apply B; assumption.
+Qed.
+
+Definition rgc_ok (rg : ty -> rstate -> res rstate) : Prop :=
+  forall t s s' X, rg t s = Ok s' -> reg_inv d s -> reg_closed X s -> reg_closed X s'.
+
+Lemma reg_list_closed rg (Hrg : rg_ok rg) (Hc : rgc_ok rg) : forall ts s s' X,
+  reg_list rg ts s = Ok s' -> reg_inv d s -> reg_closed X s -> reg_closed X s'.
+Proof.
+  induction ts as [|x r IHr]; intros s s' X H Hi Hcl; simpl in H.
+  - inversion H; subst; exact Hcl.
+  - destruct (rg x s) as [s1|e] eqn:E; simpl in H; [|discriminate].
+    destruct (Hrg _ _ _ E Hi) as [Hi1 _].
+    apply (IHr _ _ _ H Hi1). apply (Hc _ _ _ _ E Hi Hcl).
+Qed.
+
+Lemma reg_subs_closed rg (Hrg : rg_ok rg) (Hc : rgc_ok rg) sy : forall l s s' X,
+  reg_subs rg d sy l s = Ok s' -> reg_inv d s -> reg_closed X s -> reg_closed X s'.
+Proof.
+  induction l as [|st r IHr]; intros s s' X H Hi Hcl; simpl in H.
+  - inversion H; subst; exact Hcl.
+  - destruct sy as [b|c].
+    + simpl in H. eapply IHr; eassumption.
+    + destruct (subclass d st c).
+      * destruct (rg (TSym st) s) as [s1|e] eqn:E; simpl in H; [|discriminate].
+        destruct (Hrg _ _ _ E Hi) as [Hi1 _].
+        apply (IHr _ _ _ H Hi1). apply (Hc _ _ _ _ E Hi Hcl).
+      * simpl in H. eapply IHr; eassumption.
+Qed.
+
+Lemma reg_closed_add_pending X s c :
+  reg_closed X s -> reg_closed (c :: X) (set_nodes s (r_nodes s ++ [SC c])).
+Proof.
+  intros Hcl c0 Hm Hx. simpl in Hm. rewrite mem_sym_app in Hm. simpl in Hm.
+  assert (c0 <> c) by (intro; subst; apply Hx; left; reflexivity).
+  assert (Nat.eqb c0 c = false) as E by (apply Nat.eqb_neq; assumption).
+  rewrite E in Hm. simpl in Hm. rewrite orb_false_r in Hm.
+  assert (~ In c0 X) by (intro; apply Hx; right; assumption).
+  destruct (Hcl c0 Hm H0) as [A B]. split; simpl; assumption.
+Qed.
+
+Lemma reg_closed_add_base X s b :
+  reg_closed X s -> reg_closed X (set_nodes s (r_nodes s ++ [SB b])).
+Proof.
+  intros Hcl c0 Hm Hx. simpl in Hm. rewrite mem_sym_app in Hm. simpl in Hm.
+  rewrite orb_false_r in Hm. destruct (Hcl c0 Hm Hx) as [A B]. split; simpl; assumption.
+Qed.
+
+Lemma reg_new_closed rg (Hrg : rg_ok rg) (Hc : rgc_ok rg) sy s s' X :
+  mem_sym sy (r_nodes s) = false -> reg_inv d s -> reg_closed X s -> reg_new rg d sy s = Ok s' ->
+  reg_closed X s'.
+Proof.
+  intros Em Hi Hcl H. unfold reg_new in H.
+  destruct (reg_parent rg d sy _) as [s2|e] eqn:E2; cbn [bind] in H; [|discriminate].
+  destruct (reg_parent_post rg Hrg sy s s2 Em Hi E2) as [Hi2 [He2 Hm2]].
+  destruct (reg_list rg _ s2) as [s3|e] eqn:E3; cbn [bind] in H; [|discriminate].
+  destruct (reg_list_post rg Hrg _ _ _ E3 Hi2) as [Hi3 He3].
+  destruct (reg_subs rg d sy (d_considered d) s3) as [s4|e] eqn:E4; cbn [bind] in H; [|discriminate].
+  destruct (reg_subs_post rg Hrg _ _ _ _ E4 Hi3) as [Hi4 He4].
+  destruct sy as [b|c].
+  - (* a base type: nothing pending *)
+    assert (Hcl2 : reg_closed X s2).
+    { unfold reg_parent in E2. inversion E2; subst. apply reg_closed_add_base; exact Hcl. }
+    assert (Hcl4 : reg_closed X s4).
+    { eapply reg_subs_closed; try eassumption. eapply reg_list_closed; eassumption. }
+    match type of H with context [if ?b then _ else _] => destruct b end;
+      inversion H; subst s'; clear H; intros c0 Hm Hx; simpl in Hm.
+    + destruct (Hcl4 c0 Hm Hx) as [A B]. split; simpl; assumption.
+    + destruct (Hcl4 c0 Hm Hx) as [A B]. split; simpl; [assumption|].
+      intros H1 H2. rewrite mem_sym_app, (B H1 H2). reflexivity.
+  - (* a class: c is pending until the very end *)
+    pose (s1 := mkR (r_nodes s ++ [SC c]) (r_alts s) (r_term s) (r_nonterm s)).
+    fold s1 in E2.
+    assert (Hi1 : reg_inv d s1) by (apply (reg_inv_add_node s (SC c)); exact Hi).
+    assert (Hcl1 : reg_closed (c :: X) s1) by (apply (reg_closed_add_pending X s c); exact Hcl).
+    (* parent step *)
+    assert (Hcl2 : reg_closed (c :: X) s2 /\
+                   (forall p, parent_of d c = Some p -> exists l, get_alts (r_alts s2) p = Some l /\ In c l)).
+    { unfold reg_parent in E2. unfold parent_of.
+      destruct (get_cls d c) as [k|] eqn:Ek; [|discriminate].
+      destruct (c_parent k) as [p|] eqn:Ep.
+      - destruct (rg (TSym p) s1) as [s'0|e] eqn:Er; cbn [bind] in E2; [|discriminate].
+        destruct (is_abstract d (SC p)); [|discriminate]. inversion E2; subst s2; clear E2.
+        pose proof (Hc _ _ _ _ Er Hi1 Hcl1) as Hcl'.
+        split.
+        + intros c0 Hm Hx. simpl in Hm. destruct (Hcl' c0 Hm Hx) as [A B]. split; simpl; [|exact B].
+          intros q Hq. destruct (A q Hq) as [l [Hg Hin]]. rewrite get_add_alt.
+          destruct (Nat.eqb q p) eqn:Eq.
+          * apply Nat.eqb_eq in Eq; subst q. rewrite Hg. eexists; split; [reflexivity|].
+            apply in_or_app; left; exact Hin.
+          * eauto.
+        + intros q Hq. inversion Hq; subst q. simpl. rewrite get_add_alt, Nat.eqb_refl.
+          eexists; split; [reflexivity|]. apply in_or_app; right; left; reflexivity.
+      - inversion E2; subst s2. split; [exact Hcl1 | intros q Hq; discriminate]. }
+    destruct Hcl2 as [Hcl2 Halt2].
+    assert (Hcl4 : reg_closed (c :: X) s4).
+    { eapply reg_subs_closed; try eassumption. eapply reg_list_closed; eassumption. }
+    assert (He24 : reg_ext s2 s4) by (eapply reg_ext_trans; eassumption).
+    assert (Hfin : forall sfin, r_nodes sfin = r_nodes s4 -> r_alts sfin = r_alts s4 ->
+              (forall x, mem_sym x (r_nonterm s4) = true -> mem_sym x (r_nonterm sfin) = true) ->
+              (is_abstract d (SC c) = false -> fields_of d (SC c) <> [] -> mem_sym (SC c) (r_nonterm sfin) = true) ->
+              reg_closed X sfin).
+    { intros sfin Hn Ha Ht Hcn c0 Hm Hx. rewrite Hn in Hm.
+      destruct (Nat.eq_dec c0 c) as [-> | Hne].
+      - split.
+        + intros p Hp. destruct (Halt2 p Hp) as [l [Hg Hin]].
+          destruct (re_keep _ _ He24 _ _ _ Hg Hin) as [l' [Hg' Hin']]. rewrite Ha. eauto.
+        + exact Hcn.
+      - assert (Hx' : ~ In c0 (c :: X)) by (intros [? | ?]; [congruence | tauto]).
+        destruct (Hcl4 c0 Hm Hx') as [A B]. split.
+        + rewrite Ha. exact A.
+        + intros H1 H2. apply Ht. apply B; assumption. }
+    destruct (negb (is_abstract d (SC c)) && _) eqn:Eterm; inversion H; subst s'; clear H; apply Hfin; try reflexivity.
+    + intros x Hx; exact Hx.
+    + intros H1 H2. rewrite H1 in Eterm. cbn [negb andb] in Eterm.
+      destruct (fields_of d (SC c)); [congruence | discriminate].
+    + intros x Hx; simpl. rewrite mem_sym_app, Hx. reflexivity.
+    + intros _ _. simpl. rewrite mem_sym_app. simpl. rewrite Nat.eqb_refl. apply orb_true_r.
+Qed.
+
+Theorem reg_closed_ok : forall fuel, rgc_ok (reg fuel d).
+Proof.
+  induction fuel as [|f IH]; intros t s s' X H Hi Hcl; [discriminate|].
+  simpl in H. pose proof (reg_ok f) as Hrg.
+  destruct t as [b|c|t'|ts|ts|t' m].
+  - destruct (mem_sym (SB b) (r_nodes s)) eqn:Em; [inversion H; subst; exact Hcl|].
+    eapply reg_new_closed; eassumption.
+  - destruct (mem_sym (SC c) (r_nodes s)) eqn:Em; [inversion H; subst; exact Hcl|].
+    eapply reg_new_closed; eassumption.
+  - eapply IH; eassumption.
+  - eapply reg_list_closed; eassumption.
+  - eapply reg_list_closed; eassumption.
+  - eapply IH; eassumption.
+Qed.
+
+Corollary reg_result_closed fuel t r c :
+  reg fuel d t r0 = Ok r -> mem_sym (SC c) (r_nodes r) = true -> closed_at r c.
+Proof.
+  intros H Hm. apply (reg_closed_ok fuel t r0 r [] H reg_inv_r0); [|exact Hm | intros []].
+  intros c0 Hc0. simpl in Hc0. discriminate.
+Qed.
 
 End RegInv.
